@@ -81,6 +81,12 @@ func judgeC01(c *core.Case, cfg *core.Config) core.Verdict {
 	}
 	if ref.Fail != nil {
 		v.Classes = append(v.Classes, "outcome:fail-"+ref.Fail.Class)
+		if err == nil && opt && mode != "eval" && ref.Fail.Class == "budget" {
+			// the optimiser legitimately allocates less (constant ranges are preallocated, membership in a literal
+			// range allocates nothing): budgets are C06's business
+			v.Skip = "optimiser-allocates-less"
+			return v
+		}
 		if err == nil {
 			v.Violation = fmt.Sprintf("reference fails (%s: %s) but the run returns %s", ref.Fail.Class, ref.Fail.Msg, core.Show(got))
 			return v
@@ -115,7 +121,7 @@ func isCompileTimeError(src string) bool {
 	return err != nil
 }
 
-func genC01(t *rapid.T, cfg *core.Config) *core.Case {
+func genC01(t *rapid.T, cfg *core.Config, order bool, biased ...bool) *core.Case {
 	spec := core.GenEnvSpec(t, "", 6)
 	fuel := 25
 	if cfg.Thorough() {
@@ -123,13 +129,29 @@ func genC01(t *rapid.T, cfg *core.Config) *core.Case {
 	}
 	g := core.NewGen(t, spec, rapid.IntRange(3, fuel).Draw(t, "fuel"), cfg.Excl)
 	g.Calls = rapid.IntRange(0, 9).Draw(t, "calls") < 7
-	x := g.Root()
+	mode := rapid.SampledFrom([]string{"typed", "typed", "typed", "untyped", "eval"}).Draw(t, "mode")
+	g.AllDynamic = mode != "typed"
+	if order {
+		// evaluation-order stream: small programs in which most scalar operands are wrapped in logging calls
+		g.Calls = true
+		g.Fuel = rapid.IntRange(3, 14).Draw(t, "ofuel")
+		g.WrapLog = rapid.IntRange(30, 90).Draw(t, "wraplog%")
+	}
+	var x *core.X
+	if len(biased) > 0 && biased[0] {
+		// rewrite-biased stream: literal arrays / ranges / constant arithmetic / pure calls, judged against the
+		// reference (C02 only compares the optimiser with itself)
+		g.WrapLog = rapid.IntRange(0, 50).Draw(t, "cwraplog%")
+		x = g.ConstRoot()
+	} else {
+		x = g.Root()
+	}
 	c := pcase("C01", "eval")
 	c.X, c.Env = x, spec
 	p := &core.Printer{Parens: core.ParenMode(rapid.IntRange(0, 2).Draw(t, "parens")), Choose: func(n int, l string) int { return rapid.IntRange(0, n-1).Draw(t, l) }}
 	c.Source = p.Print(x)
 	c.P["opt"] = rapid.Bool().Draw(t, "opt")
-	c.P["mode"] = rapid.SampledFrom([]string{"typed", "typed", "typed", "untyped", "eval"}).Draw(t, "mode")
+	c.P["mode"] = mode
 	return c
 }
 
@@ -139,5 +161,11 @@ func TestC01(t *testing.T) {
 		return
 	}
 	defer rec.Flush()
-	core.RunRapid(t, rec, "random", cfg.N(20000, 400000), func(rt *rapid.T) *core.Case { return genC01(rt, cfg) })
+	if !core.RunRapid(t, rec, "random", cfg.N(30000, 600000), func(rt *rapid.T) *core.Case { return genC01(rt, cfg, false) }) {
+		return
+	}
+	if !core.RunRapid(t, rec, "order", cfg.N(30000, 600000), func(rt *rapid.T) *core.Case { return genC01(rt, cfg, true) }) {
+		return
+	}
+	core.RunRapid(t, rec, "rewrite-biased", cfg.N(20000, 400000), func(rt *rapid.T) *core.Case { return genC01(rt, cfg, false, true) })
 }
